@@ -388,6 +388,18 @@ func c34KeyedmapStream(rng *rand.Rand, n int, tier string, out string) (*Summary
 	if len(sites) == 0 {
 		return nil, fmt.Errorf("no keyed list in the registered packages")
 	}
+	// the key tuple of a multi-key list is ordered as the YANG key statement says: that is the
+	// order of the helpers' key arguments and of the fields of the generated key struct
+	for _, s := range sites {
+		if len(s.keyFields) > 1 {
+			sum.OracleRuns++
+			if strings.Join(s.keyFields, " ") != strings.Join(s.yangKeys, " ") {
+				sum.finding(Finding{Signature: "refmodel/key-order", What: "the generated key struct (and the key arguments of New/Get/GetOrCreate/Delete) of " + s.pkg.Name + s.path +
+					" do not follow the order of the YANG key statement: a caller passing the key tuple in schema order creates an entry under another key",
+					Input: &c15Input{Pkg: s.pkg.Name, List: s.path, DomSeed: 1, DomSize: 3}, Observed: s.keyFields, Expected: s.yangKeys})
+			}
+		}
+	}
 	seen := map[string]bool{}
 	id := 0
 	runCase := func(s *c15Site, domSeed int64, domSize int, ops []c15Op, emit bool, kind string) error {
